@@ -771,7 +771,15 @@ def check(ctx, case):
         except Exception:
             raise Abstain("compile-raised")
         d0 = problem_digest(cres.problem)
-        back, _ = roundtrip(cres, (), (p,), k)
+        try:
+            back, _ = roundtrip(cres, (), (p,), k)
+        except Violation as v:
+            if "UPConflictingEffectsException" in v.sig and any(e.is_conditional() and e.condition.simplify().is_true() for a in p.actions for e in a.effects):
+                # a conditional effect with a tautological condition: the compiler makes it unconditional through an
+                # internal setter, producing two effects on one fluent that the public model API (which the reader
+                # uses) rejects - the compiled problem is not expressible through the API (C08's known findings)
+                raise Abstain("tautological-effect-condition")
+            raise
         df = first_diff(d0, problem_digest(back.problem), "compiled-problem")
         if df:
             raise Violation(f"digest-differs:{k}", f"re-read compiled problem differs: {df}", case)
